@@ -41,7 +41,7 @@ def _edit(rng, case):
 
 
 def gen(rng, tier, no, wide=False):
-    base = G.gen_case(rng, nsteps=rng.choice([1, 2, 3]), nranks=rng.choice([1, 2, 3]))
+    base = G.gen_case(rng, nsteps=rng.choice([1, 2, 3, 3, 4, 5]), nranks=rng.choice([1, 2, 3]))
     same = rng.random() < 0.15
     test = copy.deepcopy(base) if same else _edit(rng, base)
     ranks = sorted(base["ranks"])
